@@ -52,3 +52,22 @@ Theorem C16_uci_roundtrip :
   forall p m, legal p m = true -> uci_parse p (uci_print p m) = Some m.
 Proof. exact uci_roundtrip. Qed.
 Print Assumptions C16_uci_roundtrip.
+
+(* ---- the UCI front end's state (observe_at: `position fen ...` + `printboard`) ----
+   Engine/UciSession.v: the only state is the current position; a position command forgets everything before it, the
+   engine's `moves` command extends, a take-back is just the shorter line.  The extracted usession is run next to the real
+   binary on sequences of RELATED commands (tools/uciglue.py). *)
+From CV Require Import Engine.UciSession.
+From Coq Require Import List.
+
+Theorem C16_position_command_forgets_history : forall (s : position) (before : list ucmd) r ms,
+  ufinal s (before ++ [CPosition r ms]) = play_text (root_of r) ms.
+Proof. exact position_after_any_history. Qed.
+
+Theorem C16_moves_command_extends_the_position_line : forall (s : position) r l0 l,
+  text_ok (root_of r) l0 = true -> ustep (ustep s (CPosition r l0)) (CMoves l) = ustep s (CPosition r (l0 ++ l)).
+Proof. exact moves_extends_position. Qed.
+
+Theorem C16_take_back_is_the_shorter_line : forall (s : position) r l0 l,
+  ustep (ustep s (CPosition r (l0 ++ l))) (CPosition r l0) = ustep s (CPosition r l0).
+Proof. exact take_back_is_shorter_line. Qed.
